@@ -434,6 +434,7 @@ func short(b []byte) string {
 
 // ---------- C11 : decryption is total ----------
 func runC11(c *Ctx) {
+	defer c11ThroughSP(c)
 	g := c.Group("dec", []string{"Xmlenc"}, "dcase", "check_dcases")
 	add := func(class string, key any, e *eel, extra map[string]string) {
 		t := &ptable{}
